@@ -33,10 +33,10 @@ type Walk struct {
 }
 
 type harness struct {
-	run     *hx.Run
-	model   *hx.Model
-	w       *world
-	verbose bool
+	run      *hx.Run
+	model    *hx.Model
+	w        *world
+	verbose  bool
 	announce func(c Case)
 }
 
@@ -647,17 +647,59 @@ func (h *harness) shrink(c Case, kind string) (Case, string) {
 				d.Req.Promise, d.Req.Vars, d.Req.NullAbsent = false, false, false
 				return ok
 			},
-			func(d *Case) bool { if d.Req == nil || d.Req.After == nil { return false }; d.Req.After = nil; return true },
-			func(d *Case) bool { if d.Req == nil || d.Req.Before == nil { return false }; d.Req.Before = nil; return true },
+			func(d *Case) bool {
+				if d.Req == nil || d.Req.After == nil {
+					return false
+				}
+				d.Req.After = nil
+				return true
+			},
+			func(d *Case) bool {
+				if d.Req == nil || d.Req.Before == nil {
+					return false
+				}
+				d.Req.Before = nil
+				return true
+			},
 			func(d *Case) bool { return d.Req != nil && dec1(&d.Req.First) },
 			func(d *Case) bool { return d.Req != nil && dec1(&d.Req.Last) },
-			func(d *Case) bool { if d.Req == nil || !d.Req.SelTC { return false }; d.Req.SelTC = false; return true },
-			func(d *Case) bool { if d.Req == nil || !d.Req.SelPI { return false }; d.Req.SelPI = false; return true },
-			func(d *Case) bool { if d.Direct == nil || d.Direct.After == nil { return false }; d.Direct.After = nil; return true },
-			func(d *Case) bool { if d.Direct == nil || d.Direct.Before == nil { return false }; d.Direct.Before = nil; return true },
+			func(d *Case) bool {
+				if d.Req == nil || !d.Req.SelTC {
+					return false
+				}
+				d.Req.SelTC = false
+				return true
+			},
+			func(d *Case) bool {
+				if d.Req == nil || !d.Req.SelPI {
+					return false
+				}
+				d.Req.SelPI = false
+				return true
+			},
+			func(d *Case) bool {
+				if d.Direct == nil || d.Direct.After == nil {
+					return false
+				}
+				d.Direct.After = nil
+				return true
+			},
+			func(d *Case) bool {
+				if d.Direct == nil || d.Direct.Before == nil {
+					return false
+				}
+				d.Direct.Before = nil
+				return true
+			},
 			func(d *Case) bool { return d.Direct != nil && dec1(&d.Direct.First) },
 			func(d *Case) bool { return d.Direct != nil && dec1(&d.Direct.Last) },
-			func(d *Case) bool { if d.Walk == nil || !d.Walk.Promise { return false }; d.Walk.Promise = false; return true },
+			func(d *Case) bool {
+				if d.Walk == nil || !d.Walk.Promise {
+					return false
+				}
+				d.Walk.Promise = false
+				return true
+			},
 		}
 		for _, m := range muts {
 			if try(m) {
